@@ -31,6 +31,7 @@ func main() {
 	single := flag.String("single", "", "debug: run exactly this decision vector (space separated) and dump the path")
 	seed := flag.Int64("seed", 0, "exploration order seed")
 	raceFields := flag.String("race-fields", "kvElection.,disconnectHandler.,natsConnectionMonitor.", "field-name prefixes tracked by the race detector")
+	skip := flag.String("skip", "", "regexp of harness function names to leave out")
 	list := flag.Bool("list", false, "list harness functions")
 	flag.Parse()
 
@@ -63,9 +64,13 @@ func main() {
 		return
 	}
 	re := regexp.MustCompile(*run)
+	var skipRe *regexp.Regexp
+	if *skip != "" {
+		skipRe = regexp.MustCompile(*skip)
+	}
 	var results []*Result
 	for _, n := range names {
-		if !re.MatchString(n) {
+		if !re.MatchString(n) || (skipRe != nil && skipRe.MatchString(n)) {
 			continue
 		}
 		fn := eng.pkg.Func(n)
